@@ -103,9 +103,14 @@ func (panel *userPanel) TerminateActiveUser(user *ActiveUser, reason string) {
 		"reason": reason,
 	}).Info("Terminating active user")
 	panel.updateUsageQueueForOne(user)
+	user.sessionsM.Lock()
+	user.retired = true
+	user.sessionsM.Unlock()
 	user.closeAllSessions(reason)
 	panel.activeUsersM.Lock()
-	delete(panel.activeUsers, user.arrUID)
+	if panel.activeUsers[user.arrUID] == user {
+		delete(panel.activeUsers, user.arrUID)
+	}
 	panel.activeUsersM.Unlock()
 }
 
